@@ -690,6 +690,51 @@ fn search_pr(k: usize, rng: &mut Rng, sr: &mut Search, g: &mut Goals) {
     }
 }
 
+
+// ------------------------------------------------------------------------------------------------
+// D. acceptance logs: the solvers run with Verbosity::Iter; the check reads the tables from the harness log and
+//    compares the iteration at which "converged" is reported with the stopping rule of the model (newton_loop)
+
+fn log_block<F: FnOnce() -> bool>(kind: &str, label: &str, tol: f64, run: F) {
+    println!("C06LOG begin {}", json!({"kind": kind, "label": label, "tol": tol}));
+    let ok = catch_unwind(AssertUnwindSafe(run)).unwrap_or(false);
+    println!("C06LOG end {}", if ok { "ok" } else { "err" });
+}
+
+fn acceptance_logs(cfgs: &[configs::Config], full: bool, rng: &mut Rng) {
+    use feos_core::Verbosity;
+    let tols = [None, Some(1e-6), Some(1e-10)];
+    for c in cfgs.iter().filter(|c| c.ncomp <= 2 && (full || c.core)) {
+        let eos = &c.model;
+        for k in 0..if full { 6 } else { 3 } {
+            let tol = tols[k % 3];
+            let opts = SolverOptions { max_iter: None, tol, verbosity: Verbosity::Iter };
+            let t0 = c.t_scale * rng.range(0.5, 1.6);
+            if c.ncomp == 1 {
+                log_block("hkm", &format!("{} T0={t0}", c.name), tol.unwrap_or(1e-8), || {
+                    State::critical_point(eos, None, Some(Temperature::from_reduced(t0)), opts).is_ok()
+                });
+                let f = rng.range(0.5, 0.99);
+                log_block("spinodal", &format!("{} T={}", c.name, f * c.t_scale), tol.unwrap_or(1e-8), || {
+                    State::spinodal(eos, Temperature::from_reduced(f * c.t_scale), None, opts).is_ok()
+                });
+            } else {
+                let x = rng.range(0.1, 0.9);
+                let moles = arr1(&[x, 1.0 - x]) * quantity::MOL;
+                log_block("hkm", &format!("{} x={x} T0={t0}", c.name), tol.unwrap_or(1e-8), || {
+                    State::critical_point(eos, Some(&moles), Some(Temperature::from_reduced(t0)), opts).is_ok()
+                });
+                log_block("binary_t", &format!("{} T={t0}", c.name), tol.unwrap_or(1e-8), || {
+                    State::critical_point_binary(eos, Temperature::from_reduced(c.t_scale * rng.range(0.9, 1.1)), None, None, opts).is_ok()
+                });
+                log_block("binary_p", &format!("{} T0={t0}", c.name), tol.unwrap_or(1e-8), || {
+                    State::critical_point_binary(eos, Pressure::from_reduced(rng.range(0.2, 0.5)), Some(Temperature::from_reduced(t0)), None, opts).is_ok()
+                });
+            }
+        }
+    }
+}
+
 // ------------------------------------------------------------------------------------------------
 
 fn load<M: serde::de::DeserializeOwned>(rel: &str) -> Vec<PureRecord<M>> {
@@ -812,6 +857,11 @@ fn main() {
         let mut g = Goals::new();
         search_pr(if full { 200 } else { 24 }, &mut rng, &mut sr, &mut g);
         files.push(("pr_triples.v".to_string(), g));
+    }
+
+    // ---- D. acceptance logs (stdout)
+    if only.is_none() || only.as_deref() == Some("log") {
+        acceptance_logs(&cfgs, full, &mut rng);
     }
 
     let mut goal_files = Vec::new();
